@@ -96,7 +96,7 @@ Definition located (ops : list (nat * bool * gop ptok)) : list op :=
 Inductive status := S200 | S302 | S400 | S401 | S403 | S500 | SOther.
 Record trec := TRec { tr_client : string; tr_sub : string; tr_actor : string;
                       tr_scopes : list string; tr_aud : list string; tr_expired : bool }.
-Inductive xtok := XEmpty | XOpaque (id : sid) (sub : string) | XJwt (id : sid) (sub : string)
+Inductive xtok := XEmpty | XOpaque (id : sid) (sub : string) | XJwt (id : sid) (sub actor : string)   (* actor: the act.sub claim *)
                 | XIdTok (sub azp : string) | XOther.
 Inductive out :=
 | OIssued (at_id rt_id : sid)
@@ -174,14 +174,15 @@ Definition add_at_rt (m n : nat) (t : trec) (s : store) :=
 Definition find_client (cl : list client) (id : string) : option client :=
   find (fun c => String.eqb (c_id c) id) cl.
 (* Storage.AuthorizeClientIDSecret *)
+Definition nonempty (s : string) : bool := negb (String.eqb s "").
+(* op.AuthorizeClientIDSecret / ClientBasicAuth: an empty secret never authenticates; else the storage decides *)
 Definition sec_ok (cl : list client) (id sec : string) : bool :=
-  match find_client cl id with Some c => String.eqb (c_secret c) sec | None => false end.
+  nonempty sec && match find_client cl id with Some c => String.eqb (c_secret c) sec | None => false end.
 Definition cred_pair (c : cred) : string * string :=
   match c with NoCred => ("", "") | Basic i s => (i, s) | Post i s => (i, s) | Both i s _ => (i, s)
              | Assertion _ f => (f, "") end.
 Definition basic_pair (c : cred) : string * string :=
   match c with Basic i s => (i, s) | Both i s _ => (i, s) | _ => ("", "") end.
-Definition nonempty (s : string) : bool := negb (String.eqb s "").
 
 (* Provider router, introspection: ClientIDFromRequest - only a Basic header authenticates *)
 Definition auth_intro_prov (cl : list client) (c : cred) : option string :=
@@ -428,7 +429,7 @@ Definition exchange (cl : list client) (r : router) (s : st) (c : cred) (subj : 
                 let sc := decided_scopes (policy g) scopes in
                 let ssub := decided_subject (policy g) ssub in
                 let t := TRec (c_id k) ssub asub sc aud (c_exp k) in
-                let acc n := if c_jwt k then XJwt (AT n) ssub else XOpaque (AT n) ssub in
+                let acc n := if c_jwt k then XJwt (AT n) ssub asub else XOpaque (AT n) ssub in   (* CreateJWT: act from GetPrivateClaimsFromTokenExchangeRequest *)
                 match effective_type (policy g) req with      (* CreateTokenExchangeResponse switches on what the storage left *)
                 | TAccess =>
                     ((add_at (nx + 1) t g, nx + 1), OExch TAccess (acc (nx + 1)) NoId false sc (Some t))
@@ -493,7 +494,7 @@ Definition xtok_eqb (a b : xtok) : bool :=
   match a, b with
   | XEmpty, XEmpty | XOther, XOther => true
   | XOpaque i s, XOpaque j u => sid_eqb i j && String.eqb s u
-  | XJwt i s, XJwt j u => sid_eqb i j && String.eqb s u
+  | XJwt i s a, XJwt j u b => sid_eqb i j && String.eqb s u && String.eqb a b
   | XIdTok s z, XIdTok u w => String.eqb s u && String.eqb z w
   | _, _ => false
   end.
